@@ -243,6 +243,19 @@ func (e *hmacEngine) integrity(tk *verifrt.Task) {
 	}
 }
 
+// misput is a caller error: an object of one pool is put into the other. The
+// library may reject it (it panics in the offender today); whatever it does,
+// the other, correct users of the pools must keep getting correct MACs.
+func (e *hmacEngine) misput(tk *verifrt.Task) {
+	e.stats["fault_object_put_into_wrong_pool"]++
+	e.desc = append(e.desc, tk.Name+":misput")
+	h := stun.VerifAcquireSHA1([]byte("misput"))
+	func() {
+		defer func() { recover() }() //nolint
+		stun.VerifPutSHA256(h)
+	}()
+}
+
 func (e *hmacEngine) Env() []EnvEvent { return nil }
 
 func (e *hmacEngine) Check() *Violation { return e.viol }
@@ -257,13 +270,15 @@ func (e *hmacEngine) Quiescent() bool {
 		r.Sim.Spawn(fmt.Sprintf("H%d", i), func() {
 			tk := r.Sim.Cur()
 			for j := 0; j < e.nOps; j++ {
-				switch r.Pick([]int{5, 3, 2}, "hmac-op") {
+				switch r.Pick([]int{10, 6, 4, 1}, "hmac-op") {
 				case 0:
 					e.session(tk, false)
 				case 1:
 					e.session(tk, true)
 				case 2:
 					e.integrity(tk)
+				case 3:
+					e.misput(tk)
 				}
 			}
 		}, r.Sim.Tasks[0])
